@@ -397,9 +397,10 @@ def _fail_pass(ctx, R, NR, b):
 
 
 def _const_result_guards(ctx, NR, b, fv, leftmost, tag):
-    """`break ROOT` only under fail_id == ROOT; `DEAD` results only under an `== DEAD` test."""
+    """`break ROOT` only when the state just tried (the argument of child_id) is ROOT itself, i.e. after
+    ROOT's own edge has been tried; `DEAD` results only under an `== DEAD` test."""
     root = fv.root
-    # blocks assigning a bare ROOT/DEAD constant to a local that flows to the fail write
+    tried = [vw.op(tj["args"][1]) for vw, bi, c, tj in fv.calls(lambda c: c.name == "child_id") if vw is root]
     for bi, si, st in b.stmts():
         if st["k"] != "assign" or st["lhs"]["proj"]:
             continue
@@ -408,10 +409,15 @@ def _const_result_guards(ctx, NR, b, fv, leftmost, tag):
                 "nfa_builder::ROOT_STATE_ID", "nfa_builder::DEAD_STATE_ID") and b.in_cycle(bi):
             which = 0 if rv["op"]["def"].endswith("ROOT_STATE_ID") else 1
             sws = switches_on(root, lambda d: d[0] == "bin" and d[1] == "Eq" and (is_const(d[2], which) or is_const(d[3], which)))
+            if which == 0:
+                # the compared value must be the state whose edge was just tried
+                sws = [(sbi, stj, d) for sbi, stj, d in sws
+                       if any(core.same(d[3] if is_const(d[2], 0) else d[2], t) for t in tried)]
             g = any(b.edge_guards((sbi, bool_arms(stj)[0]), bi) for sbi, stj, d in sws)
             ctx.check(g, "NFA-FAIL" if which == 0 else "NFA-LM", b, "%s-result-guarded:%s" % ("root" if which == 0 else "dead", tag),
-                      b.loc(bi, si), "a constant %s fail link may be produced only under an `== %s` test"
-                      % (("ROOT", "ROOT") if which == 0 else ("DEAD", "DEAD")))
+                      b.loc(bi, si), ("a ROOT fail link may be produced only after ROOT's own edge was tried: guard `fail_id == ROOT` on the "
+                                      "state passed to child_id") if which == 0 else
+                      "a constant DEAD fail link may be produced only under an `== DEAD` test")
     if leftmost:
         # DEAD propagation: parent's fail == DEAD  => child DEAD ; chain hits DEAD => DEAD
         sws = switches_on(root, lambda d: d[0] == "bin" and d[1] == "Eq" and (is_const(d[2], 1) or is_const(d[3], 1)))
